@@ -164,6 +164,8 @@ pub struct UploadSpec {
     pub client: SocketAddr,
     pub peer: usize,
     pub content: Arc<Vec<u8>>,
+    /// file name of the upload when one endpoint uploads several files in a row
+    pub name: Option<&'static str>,
 }
 
 struct Up {
@@ -196,8 +198,9 @@ impl FsMon {
         FsMon { attr: Attr::default(), specs, keep, ups: BTreeMap::new(), order: BTreeMap::new(), pending_b: BTreeMap::new(), settled: BTreeMap::new(), probes: BTreeMap::new() }
     }
 
-    fn content_of(&self, client: SocketAddr) -> Option<Arc<Vec<u8>>> {
-        self.specs.iter().find(|s| s.client == client).map(|s| s.content.clone())
+    fn content_of(&self, client: SocketAddr, path: &std::path::Path) -> Option<Arc<Vec<u8>>> {
+        let fname = path.file_name().map(|f| f.to_string_lossy().into_owned());
+        self.specs.iter().find(|s| s.client == client && (s.name.is_none() || s.name.map(|n| n.to_string()) == fname)).map(|s| s.content.clone())
     }
 
     /// The settled files must hold exactly the completed upload's content.
@@ -317,7 +320,7 @@ impl Monitor for FsMon {
                     }
                 }
                 if let Some((path, client)) = settle {
-                    if let Some(c) = self.content_of(client) {
+                    if let Some(c) = self.content_of(client, &path) {
                         self.settled.insert(path, (*task, c));
                         bump(&mut self.probes, "latest_accepted_upload_completed");
                     }
@@ -369,7 +372,7 @@ impl Monitor for FsMon {
                 }
             } else if tasks.len() == 1 {
                 let u = &self.ups[&tasks[0]];
-                let sent = self.content_of(u.client).unwrap_or_default();
+                let sent = self.content_of(u.client, path).unwrap_or_default();
                 match std::fs::read(path) {
                     Ok(f) => {
                         if !sent.starts_with(&f) {
